@@ -30,6 +30,7 @@ def dec(e):
 class Rec:
     def __init__(self, H, psi, user_dt, numiter, numeric):
         self.H, self.psi, self.user_dt, self.numiter, self.numeric = H, psi, user_dt, numiter, numeric
+        self.missing = set()
         self.trace = []
         self.keep = []
         self.merged = {}
@@ -206,11 +207,32 @@ def patched(rec, module):
     import pytenet.mps as MPSMOD
     saved = []
 
+    def robust(name, wrapper):
+        """the recorder must never change what the implementation does: if a wrapper fails (a private helper got another signature,
+        an argument another type) the original is called with the caller's own arguments exactly once, the hook is recorded as lost
+        (the trace is then incomplete: the tie is reported as broken, never a failing input)"""
+        def g(orig):
+            def h(*a, **k):
+                st = {}
+
+                def once(*aa, **kk):
+                    st['res'] = orig(*aa, **kk)
+                    return st['res']
+                try:
+                    return wrapper(once)(*a, **k)
+                except Exception:
+                    rec.missing.add(name)
+                    if 'res' in st:
+                        return st['res']
+                    return orig(*a, **k)
+            return h
+        return g
+
     def patch(obj, name, wrapper):
         if hasattr(obj, name):
             orig = getattr(obj, name)
             saved.append((obj, name, orig))
-            setattr(obj, name, wrapper(orig))
+            setattr(obj, name, robust(name, wrapper)(orig))
     try:
         patch(module, '_local_hamiltonian_step', rec.w_kexp)
         patch(module, '_local_bond_step', rec.w_kexp0)
@@ -237,7 +259,7 @@ def run_recorded(module, fn, H, psi, user_dt, numiter, numeric, *args, **kw):
     rec = Rec(H, psi, user_dt, numiter, numeric)
     with patched(rec, module):
         ret = fn(H, psi, *args, **kw)
-    out = {'numeric': bool(numeric), 'orth': rec.orth, 'BR': rec.BR if numeric else None, 'trace': rec.trace,
+    out = {'numeric': bool(numeric), 'orth': rec.orth, 'BR': rec.BR if numeric else None, 'trace': rec.trace, 'hook_lost': sorted(rec.missing),
            'A': [rec.e(a) for a in psi.A], 'qD': [[int(q) for q in x] for x in psi.qD]}
     return ret, out
 
@@ -346,11 +368,15 @@ def ring_args(numeric):
 
 
 def term_tdvp(two, h, steps, run):
+    if run.get('hook_lost'):
+        return 'false'      # the recorder lost a hook (%s): the trace is incomplete, the tie is broken
     numeric = run['numeric']
     return 'check_tdvp %s %s %s %s %s' % (ring_args(numeric), E.boolean(two), g_mpo(h, numeric), E.nat(steps), g_run(run))
 
 
 def term_dmrg(two, h, sweeps, run, ens):
+    if run.get('hook_lost'):
+        return 'false'
     numeric = run['numeric']
     return 'check_dmrg %s %s %s %s %s %s' % (ring_args(numeric), E.boolean(two), g_mpo(h, numeric), E.nat(sweeps), g_run(run),
                                              E.lst([g_scalar(x, numeric) for x in ens]))
